@@ -27,16 +27,16 @@ def props_of(clause):
     return (CLAUSE_PROP.get(clause, "?"),) + ALSO.get(clause, ())
 
 
-def cfg(stale=False, ctx=False, Wp=32, Wm=256, M=65535, invariants=()):
-    s = ("SPECIFICATION TSpec\nCONSTANTS\n M = %d\n Wp = %d\n Wm = %d\n Keep = 8192\n StaleMsgDeviation = %s\n CtxExpiryDeviation = %s\n"
-         % (M, Wp, Wm, "TRUE" if stale else "FALSE", "TRUE" if ctx else "FALSE"))
+def cfg(stale=False, ctx=False, Wp=32, Wm=256, M=65535, invariants=(), skip=()):
+    s = ("SPECIFICATION TSpec\nCONSTANTS\n M = %d\n Wp = %d\n Wm = %d\n Keep = 8192\n StaleMsgDeviation = %s\n CtxExpiryDeviation = %s\n Skip = {%s}\n"
+         % (M, Wp, Wm, "TRUE" if stale else "FALSE", "TRUE" if ctx else "FALSE", ", ".join('"%s"' % c for c in sorted(skip))))
     for i in invariants:
         s += "INVARIANT %s\n" % i
     s += "CHECK_DEADLOCK FALSE\n"
     return s
 
 
-def judge(ctx, traces, label, stale=False, ctxdev=False, workers=None):
+def judge(ctx, traces, label, stale=False, ctxdev=False, workers=None, skip=()):
     """Returns (rejections, summary).  A rejection is dict(tid, l, failing, ev, state); none = every trace is a behaviour of Trace_Conn.
     TLC runs with one worker per JVM (every TLC worker would otherwise re-parse the trace file); traces are split over parallel JVMs."""
     from concurrent.futures import ThreadPoolExecutor
@@ -57,7 +57,7 @@ def judge(ctx, traces, label, stale=False, ctxdev=False, workers=None):
             paths.append(path)
 
         def one(k):
-            return T.run("Trace_Conn", cfg(stale, ctxdev), env=dict(TRACE_FILE=paths[k]), heap="3g", cont=True, workers=1, timeout=3000, parse_states="last", gcthreads=2)
+            return T.run("Trace_Conn", cfg(stale, ctxdev, skip=skip), env=dict(TRACE_FILE=paths[k]), heap="3g", cont=True, workers=1, timeout=3000, parse_states="last", gcthreads=2)
         with ThreadPoolExecutor(nproc) as ex:
             results = list(ex.map(one, range(nproc)))
         rej, acc = [], []
@@ -101,8 +101,22 @@ def judge(ctx, traces, label, stale=False, ctxdev=False, workers=None):
         shutil.rmtree(wd, ignore_errors=True)
 
 
-def report(ctx, rej, traces, descr, mine, sig_for=None):
-    """Turn rejections into VIOLATION lines for the property `mine` (clauses of other properties are noted, not reported)."""
+def report(ctx, rej, traces, descr, mine, sig_for=None, stale=True, ctxdev=True):
+    """Turn rejections into VIOLATION lines for the property `mine`.  A trace that stops at clauses of other properties only is judged again with those
+    clauses skipped (up to three rounds), so that what follows in it is still examined for `mine`; what remains foreign is noted, not reported."""
+    skipped = set()
+    for _round in range(3):
+        foreign = [x for x in rej if x["failing"] and not ({mine, "?"} & set(p for c in x["failing"] for p in props_of(c)))]
+        if not foreign:
+            break
+        skipped |= set(c for x in foreign for c in x["failing"])
+        tids = sorted({x["tid"] for x in foreign})
+        sub = [traces[t - 1] for t in tids]
+        rej2, _ = judge(ctx, sub, "Trace_Conn %s: %d trace(s) judged again without %s" % (mine, len(sub), sorted(skipped)), stale=stale, ctxdev=ctxdev, skip=skipped)
+        for x in rej2:
+            x["tid"] = tids[x["tid"] - 1]
+            x["after_skipping"] = sorted(skipped)
+        rej = [x for x in rej if x not in foreign] + rej2
     other = 0
     for x in rej:
         clauses = x["failing"] or ["(no clause false: event not consumable)"]
@@ -113,9 +127,10 @@ def report(ctx, rej, traces, descr, mine, sig_for=None):
             if "dg" in ev:
                 brief["dg"] = dict(dseq=ev["dg"]["dseq"], ack=ev["dg"]["ack"], nmsgs=len(ev["dg"]["msgs"]), msgs=ev["dg"]["msgs"][:3])
             sig = sig_for(x) if sig_for else None
-            ctx.fail("%s: recorded execution rejected by Trace_Conn at event %s of trace %s: clause(s) %s false; event %s; expected callbacks %s"
-                     % (descr(x["tid"]) if callable(descr) else descr, x["l"], x["tid"], ",".join(clauses), json.dumps(brief)[:700],
-                        json.dumps(x["state"].get("expectedCbs"))[:200]),
+            ctx.fail("%s: recorded execution rejected by Trace_Conn at event %s of trace %s: clause(s) %s false%s; event %s; expected callbacks %s"
+                     % (descr(x["tid"]) if callable(descr) else descr, x["l"], x["tid"], ",".join(clauses),
+                        (" (judged again after clause(s) %s of other properties had stopped the first pass)" % ",".join(x["after_skipping"])) if x.get("after_skipping") else "",
+                        json.dumps(brief)[:700], json.dumps(x["state"].get("expectedCbs"))[:200]),
                      dict(scenario=descr(x["tid"]) if callable(descr) else descr, tid=x["tid"], position=x["l"], failing=clauses, event=ev, state=x["state"],
                           prefix_tail=traces[x["tid"] - 1][max(0, (x["l"] or 1) - 6):(x["l"] or 1)] if x["tid"] else None), sig=sig)
         else:
